@@ -74,6 +74,11 @@ package hmac
 //@   safety
 //@   at call SearchableEncryptorKeystore.GetHMACSecretKey : assert recv == e.keystore && sameslice(arg[0], clientID)
 //@   at call GenerateHMAC : assert sameslice(arg[0], ret(SearchableEncryptorKeystore.GetHMACSecretKey)[0]) && ret(SearchableEncryptorKeystore.GetHMACSecretKey)[1] == nil
+//@   at call GenerateHMAC : assert index-over-plaintext: (ret(ExtendedDataProcessor.MatchDataSignature)[0] ==> called(ExtendedDataProcessor.Process) && ret(ExtendedDataProcessor.Process)[1] == nil && sameslice(arg[1], ret(ExtendedDataProcessor.Process)[0])) && (!ret(ExtendedDataProcessor.MatchDataSignature)[0] ==> sameslice(arg[1], data))
+//@   at call ExtendedDataProcessor.MatchDataSignature : assert sameslice(arg[0], data)
+//@   at call ExtendedDataProcessor.Process : assert recv == e.decryptor && sameslice(arg[0], data)
+//@   ensures index-then-stored-form: err == nil && called(ColumnEncryptionSetting.IsSearchable) && ret(ColumnEncryptionSetting.IsSearchable)[0] ==> called(GenerateHMAC) && ((ret(ExtendedDataProcessor.MatchDataSignature)[0] && len(out) == len(ret(GenerateHMAC)[0]) + len(data)) || (!ret(ExtendedDataProcessor.MatchDataSignature)[0] && len(out) == len(ret(GenerateHMAC)[0]) + len(ret(DataEncryptor.EncryptWithClientID)[0])))
+//@   ensures not-searchable-untouched: !(called(ColumnEncryptionSetting.IsSearchable) && ret(ColumnEncryptionSetting.IsSearchable)[0]) ==> sameslice(out, data) && err == nil
 //@   at call DataEncryptor.EncryptWithClientID : assert sameslice(arg[0], clientID) && sameslice(arg[1], data)
 //@   at call base.WithClientID : assert sameslice(arg[0], clientID)
 
